@@ -566,3 +566,129 @@ Proof.
   split; [reflexivity|]. split; [reflexivity|]. split; [cbn; tauto|]. split; [vm_compute; reflexivity|].
   split; [vm_compute; reflexivity|]. split; [vm_compute; reflexivity|]. apply fits_intro; [lia | vm_compute; discriminate].
 Qed.
+
+(* ====================================================================== round 4 *)
+From Dashu Require Import Int.BitsStorageTie2 Int.BitsKernelsGenProof Int.BitsSignedWords Int.BitsSignedWordsProofs Int.BitsBeyond.
+From DashuGen Require Import BitsKernelsGen.
+
+(** (1) tie to C17's storage machine, continued: >> (all forms), clear_bit, | and ^ (double word into a buffer,
+    kept buffer + pushed tail, all ownership arms), & (lowest double word, truncate) *)
+Theorem C09_shr_machine_is_kernel : forall w M, 0 < w -> forall a n m r m', 0 <= n -> brepr_ok w (brepr_of_targ a) ->
+  StorageModel.shr_mag w M a n m = Ok (r, m') ->
+  brepr_of_repr w r = ubig_shr_form w (targ_is_ref a) (brepr_of_targ a) n.
+Proof. exact shr_machine_is_kernel. Qed.
+Print Assumptions C09_shr_machine_is_kernel.
+
+Theorem C09_clear_bit_machine_is_kernel : forall w M, 0 < w -> forall a n m r m', 0 <= n -> brepr_ok w (brepr_of_targ a) ->
+  StorageModel.clear_bit w M a n m = Ok (r, m') -> brepr_of_repr w r = repr_clear_bit w (brepr_of_targ a) n.
+Proof. exact clear_bit_machine_is_kernel. Qed.
+Print Assumptions C09_clear_bit_machine_is_kernel.
+
+Theorem C09_orx_machine_is_kernel : forall w M, 0 < w -> forall f a b m r m',
+  brepr_ok w (brepr_of_targ a) -> brepr_ok w (brepr_of_targ b) ->
+  StorageModel.orx_mag w M (zop f) a b m = Ok (r, m') ->
+  forall o, brepr_of_repr w r = ubig_op w o f (brepr_of_targ a) (brepr_of_targ b).
+Proof. exact orx_machine_is_kernel. Qed.
+Print Assumptions C09_orx_machine_is_kernel.
+
+Theorem C09_and_machine_is_kernel : forall w M, 0 < w -> forall a b m r m',
+  brepr_ok w (brepr_of_targ a) -> brepr_ok w (brepr_of_targ b) ->
+  StorageModel.and_mag w M a b m = Ok (r, m') ->
+  forall o, brepr_of_repr w r = ubig_op w o OpAnd (brepr_of_targ a) (brepr_of_targ b).
+Proof. exact and_machine_is_kernel. Qed.
+Print Assumptions C09_and_machine_is_kernel.
+
+(** (2) the loop kernels regenerated from shift.rs / bits.rs / math.rs (coq/gen/BitsKernelsGen.v) = the hand-written ones *)
+Theorem C09_gen_math_kernels : forall w x s, ones_word_gen w x = ones_word w x /\ shr_word_gen w x s = shr_word w x s.
+Proof. intros w x s. exact (conj (ones_word_gen_ok w x) (shr_word_gen_ok w x s)). Qed.
+Print Assumptions C09_gen_math_kernels.
+
+Theorem C09_gen_shift_kernels : forall w ws s c,
+  shl_in_place_gen w ws s = shl_in_place w ws s /\
+  shr_in_place_with_carry_gen w ws s c = shr_in_place_with_carry w ws s c.
+Proof. intros w ws s c. exact (conj (shl_in_place_gen_ok w ws s) (shr_in_place_with_carry_gen_ok w ws s c)). Qed.
+Print Assumptions C09_gen_shift_kernels.
+
+Theorem C09_gen_logic_kernels : forall w buf rhs,
+  bitand_large_gen w buf rhs = bitand_large w buf rhs /\ bitor_large_gen w buf rhs = bitor_large w buf rhs /\
+  bitxor_large_gen w buf rhs = bitxor_large w buf rhs /\ and_not_large_gen w buf rhs = and_not_large w buf rhs.
+Proof.
+  intros w buf rhs. exact (conj (bitand_large_gen_ok w buf rhs) (conj (bitor_large_gen_ok w buf rhs)
+    (conj (bitxor_large_gen_ok w buf rhs) (and_not_large_gen_ok w buf rhs)))).
+Qed.
+Print Assumptions C09_gen_logic_kernels.
+
+Theorem C09_gen_trailing_zeros_large : forall w, 0 < w -> forall ws, wf w ws -> value w ws <> 0 ->
+  Z.of_nat (trailing_zeros_large_gen w ws) = trailing_zeros_large w ws.
+Proof. exact trailing_zeros_large_gen_ok. Qed.
+Print Assumptions C09_gen_trailing_zeros_large.
+
+Theorem C09_gen_trailing_ones_large : forall w, 0 < w -> forall ws, wf w ws ->
+  Z.of_nat (trailing_ones_large_gen w ws) = trailing_ones_large w ws.
+Proof. exact trailing_ones_large_gen_ok. Qed.
+Print Assumptions C09_gen_trailing_ones_large.
+
+Theorem C09_gen_trailing_zeros_shifted : forall w, 0 < w -> forall x r, 2 <= w -> wf w (x :: r) -> value w r <> 0 ->
+  Z.of_nat (trailing_zeros_large_shifted_by_one_gen w (x :: r)) = trailing_zeros_large_shifted_by_one w (x :: r).
+Proof. exact trailing_zeros_large_shifted_by_one_gen_ok. Qed.
+Print Assumptions C09_gen_trailing_zeros_shifted.
+
+Theorem C09_gen_count_lowbits_kernels : forall w, 0 < w -> forall ws n,
+  Z.of_nat (count_ones_large_gen w ws) = sum_words count_ones_spec ws /\
+  (0 <= n -> are_slice_low_bits_nonzero_gen w ws (Z.to_nat n) = slice_low_bits_nonzero w ws n).
+Proof. intros w H ws n. exact (conj (count_ones_large_gen_ok w ws) (are_slice_low_bits_nonzero_gen_ok w H ws n)). Qed.
+Print Assumptions C09_gen_count_lowbits_kernels.
+
+(** (4) the IBig tables closed at word level, citing C01: add_one / sub_one / Not / neg / IBig subtraction on words *)
+Theorem C09_repr_add_sub_one_words : forall w, 8 <= w -> forall r, brepr_ok w r ->
+  (bvalue w (repr_add_one w r) = bvalue w r + 1 /\ brepr_ok w (repr_add_one w r)) /\
+  (1 <= bvalue w r -> bvalue w (repr_sub_one w r) = bvalue w r - 1 /\ brepr_ok w (repr_sub_one w r)).
+Proof. intros w H r K. exact (conj (repr_add_one_correct w H r K) (repr_sub_one_correct w H r K)). Qed.
+Print Assumptions C09_repr_add_sub_one_words.
+
+Theorem C09_sub_one_typed_is_words : forall w, 8 <= w -> forall r, brepr_ok w r -> 1 <= bvalue w r ->
+  sub_one_typed w r = repr_sub_one w r.
+Proof. exact sub_one_typed_is_words. Qed.
+Print Assumptions C09_sub_one_typed_is_words.
+
+Theorem C09_ibig_not_words : forall w, 8 <= w -> forall s r, mag_ok w s r ->
+  sval w (ibig_not_words w s r) = Z.lnot (signed s (bvalue w r)) /\ brepr_ok w (snd (ibig_not_words w s r)).
+Proof. exact ibig_not_words_correct. Qed.
+Print Assumptions C09_ibig_not_words.
+
+Theorem C09_ibig_bitops_words : forall w, 8 <= w -> forall o s0 r0 s1 r1, mag_ok w s0 r0 -> mag_ok w s1 r1 ->
+  let x := signed s0 (bvalue w r0) in let y := signed s1 (bvalue w r1) in
+  (sval w (ibig_bitand_words w o s0 r0 s1 r1) = Z.land x y /\ brepr_ok w (snd (ibig_bitand_words w o s0 r0 s1 r1))) /\
+  (sval w (ibig_bitor_words w o s0 r0 s1 r1) = Z.lor x y /\ brepr_ok w (snd (ibig_bitor_words w o s0 r0 s1 r1))) /\
+  (sval w (ibig_bitxor_words w o s0 r0 s1 r1) = Z.lxor x y /\ brepr_ok w (snd (ibig_bitxor_words w o s0 r0 s1 r1))).
+Proof. exact ibig_bitops_words_correct. Qed.
+Print Assumptions C09_ibig_bitops_words.
+
+Theorem C09_ibig_shr_words : forall w, 8 <= w -> forall by_ref s r n, 0 <= n -> mag_ok w s r ->
+  exists res, ibig_shr_words w by_ref s r n = Ok res /\
+    sval w res = Z.shiftr (signed s (bvalue w r)) n /\ brepr_ok w (snd res).
+Proof. exact ibig_shr_words_correct. Qed.
+Print Assumptions C09_ibig_shr_words.
+
+(** counts and positions beyond the operand (2^32 + k ... usize::MAX - k): the specification is a constant *)
+Theorem C09_shr_beyond_len : forall x n, 0 <= n -> Z.abs x < 2 ^ n -> Z.shiftr x n = if x <? 0 then -1 else 0.
+Proof. exact shr_beyond_len. Qed.
+Print Assumptions C09_shr_beyond_len.
+
+Theorem C09_bitops_beyond_len : forall x n, 0 <= n -> 0 <= x < 2 ^ n ->
+  Z.testbit x n = false /\ clear_bit_spec x n = x /\ clear_high_bits_spec x n = x /\ split_bits_spec x n = (x, 0).
+Proof. exact bitops_beyond_len. Qed.
+Print Assumptions C09_bitops_beyond_len.
+
+Theorem C09_testbit_beyond_len_neg : forall x n, 0 <= n -> - 2 ^ n <= x < 0 -> Z.testbit x n = true.
+Proof. exact testbit_beyond_len_neg. Qed.
+Print Assumptions C09_testbit_beyond_len_neg.
+
+(** (3) no 16-bit build can be made (force_bits="16": const evaluation error in integer/src/mul/ntt.rs): w = 16 is tied
+    by theorems only - the word-level statements instantiated at w = 16 *)
+Theorem C09_w16_instances :
+  (forall o f a b, brepr_ok 16 a -> brepr_ok 16 b -> ubig_op 16 o f a b = to_brepr 16 (zop f (bvalue 16 a) (bvalue 16 b))) /\
+  (forall by_ref r n, 0 <= n -> brepr_ok 16 r -> ubig_shr_form 16 by_ref r n = to_brepr 16 (Z.shiftr (bvalue 16 r) n)) /\
+  (forall by_ref cap r n, 0 <= n -> brepr_ok 16 r -> ubig_shl_form 16 by_ref cap r n = to_brepr 16 (Z.shiftl (bvalue 16 r) n)).
+Proof. exact w16_instances. Qed.
+Print Assumptions C09_w16_instances.
